@@ -162,6 +162,15 @@ func RecordAlphabet(md protoreflect.MessageDescriptor, rich bool) []Rec {
 			add(fd, "value-before-key", "{v1,k1}", entry(V(v1), K(k1)))
 			add(fd, "dup-key", "{k0,k1,v1}", entry(K(k0), K(k1), V(v1)))
 			add(fd, "dup-value", "{k1,v0,v1}", entry(K(k1), V(v0), V(v1)))
+			// duplicated key / value inside one entry with two different NON-zero values (last one wins)
+			if len(kp) >= 3 {
+				add(fd, "dup-key-nonzero", "{kA,kB,v1}", entry(K(kp[1]), K(kp[len(kp)-2]), V(v1)))
+				add(fd, "dup-key-nonzero", "{kB,kA,v1}", entry(K(kp[len(kp)-2]), K(kp[1]), V(v1)))
+			}
+			if len(vp) >= 3 && vfd.Kind() != protoreflect.MessageKind {
+				add(fd, "dup-value-nonzero", "{k1,vA,vB}", entry(K(k1), V(vp[1]), V(vp[len(vp)-2])))
+				add(fd, "dup-value-nonzero", "{k1,vB,vA}", entry(K(k1), V(vp[len(vp)-2]), V(vp[1])))
+			}
 			unk := protowire.AppendVarint(tagBytes(3, protowire.VarintType), 9)
 			add(fd, "entry+unknown-subfield", "{k1,?3,v1}", entry(K(k1), unk, V(v1)))
 			if rich {
